@@ -4,13 +4,13 @@ CONSTANTS
   Hashes = {1, 2, 3}
   MaxAttrs = 2
   CandAttrs = 1
-  MaxBlocks = 4
+  MaxBlocks = 5
   MaxTxPerBlock = 2
-  MaxTxTotal = 2
+  MaxTxTotal = 3
   Window = 2
-  GCLag = 0
+  GCLag = 1
   CheckStay = TRUE
-  Deviation = "SignerRecordNotRefreshed"
-  GCMode = "strict"
-INVARIANTS InvSound InvAdmits InvStay InvProp
+  Deviation = "none"
+  GCMode = "trimmed"
+INVARIANTS InvAnswers InvStay InvProp
 CHECK_DEADLOCK FALSE
